@@ -22,6 +22,8 @@ InjSeqs(S, n) == {s \in [1..n -> S] : \A i, j \in 1..n : i # j => s[i] # s[j]}
 \* monotonic axes: every subset of UM, increasing and decreasing
 IncSeq(S) == CHOOSE s \in InjSeqs(S, Cardinality(S)) : IsInc(s)
 MonoAxes == {IncSeq(S) : S \in SUBSET UM} \cup {Rev(IncSeq(S)) : S \in SUBSET UM}
+\* monotonic axes with repeated labels (ties): the bounding box takes every position whose label lies between the bounds
+TieAxes == {<<2, 4, 4>>, <<4, 4, 2>>, <<2, 2, 4, 6>>, <<6, 4, 4, 2>>, <<4, 4>>, <<2, 4, 4, 6>>, <<6, 6, 4>>}
 ShufU == {2, 4, 6, 8}
 ShufAxes == {s \in UNION {InjSeqs(ShufU, n) : n \in 2..MaxShuf} : ~Mono(s)}
 StrAxes  == UNION {InjSeqs(ShufU, n) : n \in 1..MaxShuf}
@@ -38,7 +40,7 @@ Init == in = NoIn /\ out = <<>> /\ ph = 0
 
 ChooseAxis ==
   /\ ph = 0 /\ ph' = 1 /\ out' = out
-  /\ \/ \E L \in MonoAxes : in' = [NoIn EXCEPT !.a = Arr1(L, "i"), !.mode = "label", !.cls = "mono"]
+  /\ \/ \E L \in MonoAxes \cup TieAxes : in' = [NoIn EXCEPT !.a = Arr1(L, "i"), !.mode = "label", !.cls = "mono"]
      \/ \E L \in ShufAxes : in' = [NoIn EXCEPT !.a = Arr1(L, "i"), !.mode = "label", !.cls = "shuffled"]
      \/ \E L \in StrAxes  : in' = [NoIn EXCEPT !.a = Arr1(L, "s"), !.mode = "label", !.cls = "string"]
      \/ \E L \in MonoAxes : in' = [NoIn EXCEPT !.a = Arr1(L, "i"), !.mode = "position", !.cls = "position"]
